@@ -862,6 +862,7 @@ TENSOR_METHODS.update({
     "half": lambda E, t: _to(E, t, dtype=DType("float16")),
     "type": lambda E, t, d=None: _to(E, t, dtype=d),
     "requires_grad_": lambda E, t, v=True: t,
+    "is_inference": lambda E, t: False,
     "numpy": lambda E, t: t,      # ndarray stand-in: same element model (numpy ops used by the AWQ code are index maps / bit ops)
     "astype": lambda E, t, d: to_dtype(E, t, d if not isinstance(d, str) else DType(d)),
     "dequantize": lambda E, t: raise_(E, "NotImplementedError", "dequantize on a plain tensor is aten.dequantize (not supported)"),
@@ -1091,6 +1092,8 @@ TORCH_FUNCS = {
     "zeros": _zeros_like(0), "ones": _zeros_like(1), "arange": _arange, "tensor": _tensor,
     "is_tensor": lambda E, x: isinstance(x, STensor) or is_wrapper(x),
     "allclose": _allclose, "ones_like": _like(1), "zeros_like": _like(0),
+    "maximum": lambda E, a, b: pointwise(E, "maximum", [a, b], fn=lambda alg, v, d: z3.If(alg.cmp("ge", v[0], v[1], d), v[0], v[1])),
+    "minimum": lambda E, a, b: pointwise(E, "minimum", [a, b], fn=lambda alg, v, d: z3.If(alg.cmp("le", v[0], v[1], d), v[0], v[1])),
 }
 for _n in ["reciprocal", "abs", "neg", "round", "clamp", "relu", "amax", "amin", "max", "min", "all", "equal", "where", "mul", "div",
            "add", "sub", "lt", "cat", "stack", "matmul", "mm", "bmm", "squeeze", "unsqueeze", "reshape", "permute",
